@@ -146,23 +146,24 @@ impl MeCabOovPlugin {
                 pos_id: grammar.handle_user_pos(&cols[4..10], user_pos)?,
             };
 
-            if oov.left_id as usize > grammar.conn_matrix().num_left() {
+            // left_id is the second index of the connection matrix, right_id is the first one
+            if oov.left_id < 0 || oov.left_id as usize >= grammar.conn_matrix().num_right() {
                 return Err(SudachiError::InvalidDataFormat(
                     0,
                     format!(
                         "max grammar left_id is {}, was {}",
-                        grammar.conn_matrix().num_left(),
+                        grammar.conn_matrix().num_right(),
                         oov.left_id
                     ),
                 ));
             }
 
-            if oov.right_id as usize > grammar.conn_matrix().num_right() {
+            if oov.right_id < 0 || oov.right_id as usize >= grammar.conn_matrix().num_left() {
                 return Err(SudachiError::InvalidDataFormat(
                     0,
                     format!(
                         "max grammar right_id is {}, was {}",
-                        grammar.conn_matrix().num_right(),
+                        grammar.conn_matrix().num_left(),
                         oov.right_id
                     ),
                 ));
